@@ -69,6 +69,11 @@ pub fn main(args: &[String]) {
         mods.push((t.to_string(), false, opa(vec![])));
         extra.push(Some(("empty-enum".into(), "    pub enum XtNever {}\n    impl XtNever {\n        pub fn describe(self) -> u8 { unimplemented!() }\n    }\n".into())));
     }
+    // a type whose name JS cannot use, disabled for JS (and for the demo that sits on the JS bindings): nothing to name
+    for t in BACKENDS {
+        mods.push((t.to_string(), false, opa(vec![])));
+        extra.push(Some(("reserved-name-disabled".into(), "    #[diplomat::attr(any(js, demo_gen), disable)]\n    #[diplomat::opaque]\n    pub struct NaN(u8);\n    impl NaN {\n        pub fn get(&self) -> u8 { unimplemented!() }\n    }\n    #[diplomat::attr(js, disable)]\n    pub enum Infinity { A, B }\n".into())));
+    }
     // an indexer keyed by a string (C++ and Python index by anything; F46: kotlin insists on an integer by panicking)
     for t in BACKENDS {
         mods.push((t.to_string(), false, opa(vec![])));
